@@ -152,6 +152,9 @@ let () =
   let peek () = !pending in
   let advance () = pending := rd () in
   let dead = ref false in
+  (* a pair is judged only when every operand satisfied OK() when its twin copy was taken: an object whose
+     representation invariant is already broken (another property's business) makes both calls meaningless *)
+  let skip_pair = ref false in
   let rec loop () =
     match peek () with
     | None -> ()
@@ -166,6 +169,8 @@ let () =
            let line = String.concat " " cmd in
            (match cmd with
             | "note" :: _ -> ()
+            | "eq" :: _ when !skip_pair -> bump ("pair-skipped-operand-not-OK:" ^ !dom)
+            | "eqres" :: _ when !skip_pair -> ()
             | "eq" :: a :: b :: _ ->
                 if not !dead then begin
                   bump ("pair:" ^ !dom);
@@ -208,6 +213,13 @@ let () =
                 let expect : (int, string * value option) Hashtbl.t = Hashtbl.create 8 in   (* id -> kind, required value (None = free) *)
                 let gone = ref [] in
                 let opname = ref (List.hd cmd) in
+                (match cmd with
+                 | "copy" :: ("10" | "11" | "12" as t) :: y :: _ ->
+                     if t = "10" then skip_pair := false;
+                     (match old (int_of_string y), Hashtbl.find_opt now (int_of_string t) with
+                      | Some o, Some c -> if o.ok <> 1 || c.ok <> 1 then skip_pair := true
+                      | _ -> ())
+                 | _ -> ());
                 (match cmd with
                  | "new" :: x :: _ -> Hashtbl.replace expect (int_of_string x) ("new", None)
                  | "copy" :: x :: y :: _ -> Hashtbl.replace expect (int_of_string x) ("copy", old (int_of_string y))
